@@ -118,6 +118,7 @@ type Query struct {
 	Heap  map[string]*T
 	Trace []string
 	Pos   string
+	Fn    *ssa.Function // top-level function (for replay)
 	// results
 	Status string // unsat sat unknown timeout error trivial
 	Solver string
@@ -162,6 +163,7 @@ type Ex struct {
 	LevelChk bool            // ghost frame level tracking (C16)
 	Top      *Frame
 	covers   int
+	Partial  []string // paths abandoned because they left the supported subset
 }
 
 type loopInfo struct {
@@ -220,7 +222,7 @@ func (ex *Ex) oblige(fr *Frame, st *State, name, kind string, props []string, te
 		ex.Obls[name] = o
 		ex.OblOrder = append(ex.OblOrder, name)
 	}
-	q := &Query{PC: append([]*T(nil), st.pc...), Goal: goal, Heap: copyHeap(st.heap), Trace: append([]string(nil), st.trace...), Pos: ex.pos(pos)}
+	q := &Query{PC: append([]*T(nil), st.pc...), Goal: goal, Heap: copyHeap(st.heap), Trace: append([]string(nil), st.trace...), Pos: ex.pos(pos), Fn: ex.Top.Fn}
 	if goal.IsTrue() {
 		q.Status = "trivial"
 	}
@@ -487,8 +489,8 @@ func (ex *Ex) execFrom(fr *Frame, st *State, b *ssa.BasicBlock, i int) {
 			st.trace = append(st.trace, fmt.Sprintf("%s:T", ex.pos(x.Cond.Pos())))
 			st2.Assume(Not(c))
 			st2.trace = append(st2.trace, fmt.Sprintf("%s:F", ex.pos(x.Cond.Pos())))
-			ex.execBlock(fr, st, b.Succs[0], b)
-			ex.execBlock(fr, st2, b.Succs[1], b)
+			ex.guardedBranch(fr, st, b.Succs[0], b)
+			ex.guardedBranch(fr, st2, b.Succs[1], b)
 			return
 		case *ssa.Jump:
 			ex.execBlock(fr, st, b.Succs[0], b)
@@ -518,6 +520,20 @@ func (ex *Ex) execFrom(fr *Frame, st *State, b *ssa.BasicBlock, i int) {
 			ex.step(fr, st, ins)
 		}
 	}
+}
+
+// guardedBranch explores one branch; a construct outside the subset ends only that path.
+func (ex *Ex) guardedBranch(fr *Frame, st *State, b, prev *ssa.BasicBlock) {
+	defer func() {
+		if r := recover(); r != nil {
+			if u, ok := r.(unsupported); ok {
+				ex.Partial = append(ex.Partial, u.msg)
+				return
+			}
+			panic(r)
+		}
+	}()
+	ex.execBlock(fr, st, b, prev)
 }
 
 func (ex *Ex) doPanic(fr *Frame, st *State, x *ssa.Panic) {
